@@ -29,8 +29,35 @@ seen = set()
 CLASSES = ["Multistage", "Mixed", "TwoLevel", "Revolve", "DiskRevolve", "PeriodicDiskRevolve", "HRevolve", "SingleDisk", "SingleMemory"]
 
 
+STYLES = [None, None, None, "kw", "kwr", "pkr", "dflt", "ci", "npf"]
+DRIVERS = [None, None, None, "iter", "loops", "blind", "np"]
+
+
 def decode(data):
+    """Base config, then (from the trailing bytes; absent bytes decode to 'none') how the constructor
+    call is written, how the stream is driven and how late an online schedule is finalised."""
     f = atheris.FuzzedDataProvider(data)
+    cfg = decode_base(f)
+    st = STYLES[f.ConsumeIntInRange(0, len(STYLES) - 1)]
+    if st and (st not in ("ci", "npf") or "c8" in cfg) and cfg["cls"] != "SingleMemory":
+        cfg["style"] = st
+    dr = DRIVERS[f.ConsumeIntInRange(0, len(DRIVERS) - 1)]
+    if dr == "iter":
+        cfg["iter"] = True
+    elif dr == "loops":
+        cfg["iter"] = "loops"
+    elif dr == "blind":
+        cfg["blind"] = True
+    elif dr == "np" and "style" not in cfg:
+        cfg["np"] = True
+    if cfg["cls"] in C.ONLINE:
+        late = f.ConsumeIntInRange(0, 3)
+        if late:
+            cfg["late"] = late
+    return cfg
+
+
+def decode_base(f):
     cls = CLASSES[f.ConsumeIntInRange(0, len(CLASSES) - 1)]
     n = f.ConsumeIntInRange(1, 48)
     if cls == "Multistage":
